@@ -144,6 +144,10 @@ class Harness:
         # registration: the completer first, so that for equal priority it precedes the recorder ('mid')
         for key in (['cp'] if 'cp' in w.objs else []) + [k for k, _ in RECS] + (['cp2'] if self.second else []) + ['ac', 'fc']:
             self._register(w, key)
+        # the lowest recorder is ALSO registered with a second, independent model that is alive (and running) all the
+        # time: whether it runs in a timestep of the first model is the first model's business alone
+        w.m2 = new_model(seed=2)
+        w.m2.systems.add_system(w.objs['rm'])
         w.running = True
         w.t = 0
         w.last = None
@@ -350,7 +354,63 @@ def explore_cfg(ctx, cfg):
 AMBIENT_LEGS = True
 
 
+class SlowCollector(AgentCollector):
+    pass
+
+
+class SelfStopping(Core.Model):
+    """Completes itself at timestep tc; a plain collector of frequency `freq` records (timestep, is the model running)."""
+
+    def __init__(self, tc, freq):
+        super().__init__(seed=1)
+        tc_ = tc
+
+        class Stop(Core.System):
+            def execute(self):
+                if self.model.systems.timestep == tc_:
+                    self.model.complete()
+
+        class Probe(AgentCollector.__mro__[1]):        # ECAgent.Collectors.Collector
+            def collect(self):
+                self.records.append((self.model.systems.timestep, self.model.is_running()))
+        self.systems.add_system(Stop('stop', self, priority=5))
+        self.systems.add_system(Probe('probe', self, frequency=freq))
+
+
+def batch_case(case):
+    """A batch over models that complete themselves: no collector takes a record once its model is complete (whatever
+    its frequency), with one and with two processes."""
+    import ECAgent.Batching as Batching
+    from mc.engine.seams import reset_library
+    reset_library()
+    tcs, freqs = [0, 1, 2, 3, 4, 5], [1, 2, 3]
+    got = Batching.batch_run(SelfStopping, {'tc': tcs, 'freq': freqs}, collectors='probe', processes=case['procs'],
+                             max_timesteps=case['limit'])
+    exp = []
+    for tc in tcs:
+        for f in freqs:
+            # the stopper (priority 5) runs before the collector: at timestep tc nothing is collected any more
+            exp.append([(t, True) for t in range(0, min(tc, case['limit'])) if t % f == 0])
+    if sorted(map(repr, got)) != sorted(map(repr, exp)):
+        bad = [g for g in got if any(not running for _, running in g)]
+        raise Violation(f'batch over self-completing models (processes={case["procs"]}, max_timesteps={case["limit"]}): a '
+                        f'collector recorded after its model was complete / records differ', expected=exp[:6],
+                        observed=(bad or got)[:6])
+    return len(got)
+
+
 def run(ctx):
+    for procs in (1, 2):
+        for limit in (3, 10):
+            case = {'leg': 'batch', 'procs': procs, 'limit': limit}
+            ctx.traces += 1
+            try:
+                ctx.transitions += hbfs._guard(batch_case, case)
+                ctx.outcome(('batch', procs, limit))
+            except Violation as v:
+                ctx.report(case, v)
+                return
+    ctx.leg('batch', cases=4, note='batch_run over self-completing models with collectors of frequency 1, 2, 3')
     from mc.engine import par
     cfgs = list(configs(ctx.tier))
     if ctx.small:
@@ -359,6 +419,9 @@ def run(ctx):
 
 
 def replay(case):
+    if case['leg'] == 'batch':
+        hbfs._guard(batch_case, case)
+        return
     c = case['config']
     hbfs.replay_case(Harness(c['pos'], c['tc'], c['horizon'], c['second'], c.get('quiet', False),
                              c.get('style', 'plain')), case)
